@@ -18,7 +18,7 @@ EXPLANATION = (
 ASSUMPTIONS = ["at most one task joins a given pika::thread at a time (API contract)",
                "thread::start_thread is only called from constructors (id_ written before the handle is shared)"]
 THOROUGH_CONFIGS = [["-UNDEBUG", "-DPIKA_DEBUG"]]
-FLOORS = {"C13.R1": 4, "C13.R2": 3, "C13.R3": 6, "C13.R4": 7, "C13.R5": 2, "C13.R6": 4, "C13.R7": 5, "C13.R8": 4, "C13.R9": 2, "C13.R10": 3}
+FLOORS = {"C13.R1": 4, "C13.R2": 3, "C13.R3": 6, "C13.R4": 7, "C13.R5": 2, "C13.R6": 4, "C13.R7": 5, "C13.R8": 4, "C13.R9": 2, "C13.R10": 3, "C13.R11": 3}
 
 TD = "pika::threads::detail::thread_data"
 
@@ -384,14 +384,30 @@ def run(rep, tier):
         if not (e.get("k") == "call" and callee_short(e) == "set_thread_state" and len(e.get("args", [])) >= 3):
             return False
         return T(e["args"][1]).endswith("thread_schedule_state::pending") and T(e["args"][2]).endswith("thread_restart_state::abort")
+    ffi = FactFlow(itf, eh=False)
+    fpar = [p_["name"] for p_ in itf.params if p_.get("type") == "bool"]
     for b, i, e in st:
-        if not always_followed_by(itf, (b, i), wake):
-            rep.ok("C13.R10", itf, "after storing the request every normal path reaches set_thread_state(id, pending, abort)")
+        # paths on which the request is being withdrawn (flag == false) owe no wake-up; on all others it is owed
+        def wake_or_withdrawn(x, pos=None):
+            return wake(x)
+        badpos = always_followed_by(itf, (b, i), wake)
+        badpos = [p_ for p_ in badpos if not any((a in fpar and t is False) for a, t in (ffi.before.get(p_) or frozenset()))]
+        if not badpos:
+            rep.ok("C13.R10", itf, "after storing a request every normal path reaches set_thread_state(id, pending, abort)")
         else:
             anyw = any(wake(x) for _, _, x in itf.all_events())
             rep.bad("C13.R10", itf, loc_of(e), "interrupt-no-wakeup", "interrupt_thread stores the request at %s but %s: a target that has already passed the interruption check of its "
                     "blocking wait (still marked active) or that is suspended is never woken; interrupt(); join(); hangs" % (
                         loc_of(e), "returns on some path without set_thread_state(id, pending, abort)" if anyw else "never calls set_thread_state(id, pending, abort)"))
+    # ... and only a request wakes the target: withdrawing one (flag == false) must not abort the target's wait
+    for b, i, e in itf.all_events():
+        if wake(e):
+            fb = ffi.before.get((b, i)) or frozenset()
+            if any(a in fpar and t is True for a, t in fb):
+                rep.ok("C13.R10", itf, "the abort wake-up is performed only when an interruption is requested (flag)")
+            else:
+                rep.bad("C13.R10", itf, loc_of(e), "withdraw-wakes-target", "interrupt_thread wakes the target with 'abort' also when the request is being withdrawn (flag == false): "
+                        "thread::interrupt(false) on a blocked thread makes its wait throw yield_aborted although no interruption is requested")
     for q, Fx in ((r"pika::thread::interrupt", F), (r"pika::this_thread::interrupt", None)):
         if Fx is None:
             Fx = facts(rep, lib("threading", "src/thread.cpp"), [r"^pika::this_thread::interrupt$"])
@@ -405,6 +421,28 @@ def run(rep, tier):
                 rep.ok("C13.R10", fn, "%s hands the request to interrupt_thread on every path" % fn.qname)
             else:
                 rep.bad("C13.R10", fn, fn.loc, "interrupt-not-forwarded:" + fn.qname, "%s does not reach threads::detail::interrupt_thread on every path" % fn.qname)
+
+    # ---- R11: a function that promises not to throw is not an interruption point
+    rep.rule("C13.R11", "K7 (delivery ends the thread, not the process): interruption is delivered by throwing thread_interrupted out of an interruption point "
+             "(this_thread::suspend, interruption_point). A function of the threading API declared noexcept therefore does not call one outside a try block: the "
+             "exception would leave a noexcept function and std::terminate ends the whole program instead of the interrupted thread")
+    TT = facts(rep, lib("threading", "src/thread.cpp"), [r"^pika::this_thread::", r"^pika::thread::"])
+    n11 = 0
+    IPS = re.compile(r"^pika::(this_thread::(suspend|interruption_point|sleep_until|sleep_for)|threads::detail::interruption_point)$")
+    for f in TT.fns:
+        if f.parent != -1 or not f.file.endswith("thread.cpp") or not f.raw.get("noexcept"):
+            continue
+        n11 += 1
+        ip = [(b, i, e) for b, i, e in f.all_events() if e.get("k") == "call" and IPS.match(callee_of(e) or "") and "try" not in e]
+        if ip:
+            b, i, e = ip[0]
+            rep.bad("C13.R11", f, loc_of(e), "noexcept-interruption-point:" + f.qname, "%s is declared noexcept and calls the interruption point %s outside a try block: interrupting a thread "
+                    "that is inside it throws thread_interrupted through the noexcept boundary - std::terminate ends the program (pika::thread t([]{ for (;;) "
+                    "this_thread::yield(); }); t.interrupt();)" % (f.qname, callee_short(e)))
+        else:
+            rep.ok("C13.R11", f, "%s (noexcept) contains no interruption point" % f.qname)
+    if n11 < 3:
+        raise AnalysisBroken("C13.R11: only %d noexcept functions found in thread.cpp" % n11)
 
     # ---- R6
     exempt6 = {"start_thread": "called from constructors only, before the handle is shared",
